@@ -152,6 +152,18 @@ func checkC07(r *evid.Run) {
 	}
 	defer pool.Close()
 	cfg, timeout := fsTier(r, "C07")
+	// (+ chains four deep over {a, '.. ', '..'}: leaving the target takes two steps up from below a root)
+	for _, cfg := range []string{cfg, "MC_C07_deep.cfg"} {
+		checkC07Model(r, pool, cfg, timeout)
+	}
+	r.Set("exhaustive", true)
+	r.Set("rule", "every forest up to the bound over {a, '.', '..', 'a/b', '/a', '../a'} at every node position x {From-Markdown, From-Root, deprecated aliases} x {dry-run, real} x {simple, massive} x 2 extension lists x {target present, missing}, and every forest of 4 items up to depth 4 over {a, '.. ', '..'}; the jail sits three directories below a scratch root that is snapshotted as a whole; non-trivial = forest with a hostile name")
+	r.Assume("checks run as root: permissions are not relied on as a guard; an escape of up to three levels is visible")
+	// a tree with a name that is no path element, under every option sequence (Options.tla): rejected all the same
+	checkOptions(r, "rule", []int{1}, func(s *optState) bool { return s.Op == "mkdir" })
+}
+
+func checkC07Model(r *evid.Run, pool *wproto.Pool, cfg string, timeout time.Duration) {
 	runFsModel(r, cfg, timeout, func(s *fsState) {
 		call := s.Hist[len(s.Hist)-1]
 		if call.Op != "mkdir" {
@@ -167,7 +179,7 @@ func checkC07(r *evid.Run) {
 			r.Sample(map[string]any{"call": callString(s, c), "expected_result": s.Res.K})
 		}
 		for _, massive := range []bool{false, true} {
-			o, err := runFsCall(pool, s, c, massive, false)
+			o, err := runFsCall(pool, s, c, massive, s.N%2 == 1) // odd states: the deprecated aliases
 			if err != nil {
 				r.Broken("jail: %v", err)
 				return
@@ -199,11 +211,6 @@ func checkC07(r *evid.Run) {
 			}
 		}
 	})
-	// a tree with a name that is no path element, under every option sequence (Options.tla): rejected all the same
-	checkOptions(r, "rule", []int{1}, func(s *optState) bool { return s.Op == "mkdir" })
-	r.Set("exhaustive", true)
-	r.Set("rule", "every forest up to the bound over {a, '.', '..', 'a/b', '/a', '../a'} at every node position x {From-Markdown, From-Root} x {dry-run, real} x {simple, massive} x 2 extension lists x {target present, missing}; the jail sits three directories below a scratch root that is snapshotted as a whole; non-trivial = forest with a hostile name")
-	r.Assume("checks run as root: permissions are not relied on as a guard; an escape of up to three levels is visible")
 }
 
 // ---------------------------------------------------------------- C08
